@@ -17,6 +17,7 @@ EXCLUDE_FILE = os.path.join(SIMDIR, "c20_exclude.json")
 # dies under ASan.  alignment (+14 %) and vptr (free) stay on: a misaligned load is silent on x86 under every other tool.
 SAN_FLAGS = ["-O0", "-fsanitize=address,undefined", "-fno-sanitize=null", "-fno-sanitize-recover=all", "-D_GLIBCXX_DEBUG"]
 PLAIN_FLAGS = ["-O0", "-g1"]
+OPT_FLAGS = ["-O3", "-g1"]       # what users ship: no sanitizer can see it, crashes / exceptions / invalid enumerators can be seen
 PLAIN_STD = "-std=c++20"     # the memcheck build is also the C++20 build
 TSAN_FLAGS = ["-O1", "-g1", "-fsanitize=thread", "-DVRT_CONCURRENT"]
 WORKER_TIMEOUT = 900
@@ -38,6 +39,7 @@ class Harness:
         self.runtime = runtime
         self.no_models = no_models
         self.inline_twins = inline_twins
+        self.offset_operands = False   # optimised build: operands behind a pad (see vrt::Off)
         self.literal_seed = None   # set by the C19 API sweep: also generate constant-initialised literal objects
         self.work = work
         self.flags = flags
@@ -69,7 +71,8 @@ class Harness:
             with open(os.path.join(self.work, "c20_prelude.hpp"), "w") as f:
                 f.write(self.gen.prelude())
             tus = self.gen.translation_units(self.ntus, self.subset, self.inline_twins, at_exit_object=(self.runtime == "c20_rt.cpp"),
-                                             const_literals=(Rng(self.literal_seed) if self.literal_seed is not None else None))
+                                             const_literals=(Rng(self.literal_seed) if self.literal_seed is not None else None),
+                                             offset_operands=self.offset_operands)
             tus = {fn: text for fn, text in tus.items() if "vrt::OpEntry" in text}
             todo = []
             for fn, text in tus.items():
@@ -643,7 +646,7 @@ def precise_fault(o, ev):
     if m:
         o["fault"], o["fa"], o["fb"] = m.group(1), int(m.group(2)), 0
         return o
-    if f in ("sink:nullbuf", "sink:flags") or f.startswith("sink:width:") or f.startswith("sink:maskon:"):
+    if f in ("sink:nullbuf", "sink:flags") or f.startswith("sink:width:") or f.startswith("sink:maskon:") or f.startswith("sink:flags2:") or f.startswith("alloc3:"):
         return o   # only reachable through sinkeach: keep the enumerating fault in the replay
     m = re.match(r"^sink:(-?\d+):(\d+):(\d+)$", f)
     if m:
@@ -724,9 +727,12 @@ def replay(path, quiet=False):
         flags_ = SAN_FLAGS + Catalogue().conditional_build_flags()["flags"]
     if plan.get("build") == "uchar":
         flags_ = SAN_FLAGS + ["-funsigned-char"]
+    if plan.get("build") == "opt":
+        flags_ = OPT_FLAGS
     h = Harness(common.scratch("c20r"), flags_, only=names, ntus=1, label="replay")
     if valgrind:
         h.std = PLAIN_STD
+    h.offset_operands = plan.get("build") == "opt"
     err = h.build()
     if err:
         if not quiet:
@@ -801,8 +807,14 @@ def main(tier, seed):
         text_ops = {n for n in HarnessGen(Catalogue()).all_instance_names() if re.match(r"^(Base\||Unit::\w+\||UnitSystem\||ConstitutiveModel::Type\||Dimensions\||Dimension::|Free\|)", n)}
     hu = Harness(os.path.join(root, "uchar"), SAN_FLAGS + ["-funsigned-char"], only=text_ops, subset=(None if thorough else subset), label="uchar",
                  ntus=(max(2, common.NCPU // 3) if thorough else 1))
+    # optimised build (what users ship): -O3, no sanitizer, every operand behind a pad of its own alignment (vrt::Off) so that
+    # objects sit where members and container elements sit.  Undefined behaviour that only an optimiser turns into a crash
+    # (a false alignment or unreachability hint, a missing return, an uninitialised bool) is invisible to every -O0 build.
+    ho = Harness(os.path.join(root, "opt"), OPT_FLAGS, subset=(subset if thorough else {"double": subset["double"]}), label="opt",
+                 ntus=max(2, common.NCPU // (3 if thorough else 4)))
+    ho.offset_operands = True
     # the builds share the cores; the sanitizer build is the long pole
-    errs = pmap(lambda h: h.build(), [h_ for h_ in (hs, hp, ht, hx, hu) if h_ is not None], 5)
+    errs = pmap(lambda h: h.build(), [h_ for h_ in (hs, hp, ht, hx, hu, ho) if h_ is not None], 6)
     for e in errs:
         if e:
             log("INFRASTRUCTURE: " + e)
@@ -848,6 +860,10 @@ def main(tier, seed):
                     if 2 <= n <= 12:
                         for k2 in range(k + 1, n):
                             distinct.add((o["name"], "alloc2", k, k2))
+                    if 3 <= n <= 8:
+                        for k2 in range(k + 1, n):
+                            for k3 in range(k2 + 1, n):
+                                distinct.add((o["name"], "alloc3", k, k2, k3))
             elif o["fault"] in ("alloc", "allocfrom") and n > 0:
                 distinct.add((o["name"], o["fault"], o["fa"] % n))
             elif o["fault"] == "huge":
@@ -911,6 +927,8 @@ def main(tier, seed):
                                                      + [o for o in gen_value_classes(hx, rng) if thorough or o["vc"] in (0, 2, 5, 6, 9)], 60000, size=512), build="cond")
     execute("unsigned-char-build", hu.exe, chunked(gen_enumeration(hu, rng, draws=1) + gen_enumeration(hu, rng, draws=(60 if thorough else 30), faults=False)
                                                    + gen_sweeps(hu, cat, False, Rng(common.run_seed(seed, 10))), 40000, size=512), build="uchar")
+    execute("optimised-build", ho.exe, chunked(gen_enumeration(ho, rng, draws=1) + gen_enumeration(ho, rng, draws=(60 if thorough else 12), faults=False)
+                                               + [o for o in gen_value_classes(ho, rng) if thorough or o["vc"] in (0, 2, 5, 6, 9, 24)], 20000, size=512), build="opt")
     # 3. fault-free batch on its own (so the relaxation under faults can hide nothing)
     ff = gen_enumeration(hs, rng, draws=(300 if thorough else 24), faults=False)
     execute("fault-free", hs.exe, chunked(ff, 200000, size=512))
@@ -1007,7 +1025,7 @@ def main(tier, seed):
         for fam, items in unknown[:2]:      # minimise and report up to two families per class
             b, ops_, e = min(items, key=lambda it: it[2]["op"])
             valgrind = b == "plain-memcheck"
-            exe = hp.exe if valgrind else (ht.exe if b == "tsan" else (hx.exe if b == "cond" else (hu.exe if b == "uchar" else hs.exe)))
+            exe = hp.exe if valgrind else (ht.exe if b == "tsan" else (hx.exe if b == "cond" else (hu.exe if b == "uchar" else (ho.exe if b == "opt" else hs.exe))))
             env_ = e.get("env")
             plan_ops, used = minimise(exe, ops_, e, valgrind, env=env_)
             name = ops_[e["op"]]["name"]
@@ -1070,10 +1088,11 @@ def main(tier, seed):
         "violation_groups": len(groups), "known_findings_matched": len(known_lines),
         "components": {"real": ["all PhQ headers from /repo/include (working tree)", "libstdc++ (strings, streams, containers, stod family) in debug mode",
                                 "ASan", "UBSan (all of -fsanitize=undefined except the null check)", "valgrind memcheck on a plain -O0 build compiled as C++20 (every other build is C++17)", "ThreadSanitizer on a third build (two real threads inside the library at once)",
-                                "a sanitizer build with -funsigned-char (text-handling ops in quick, everything in thorough)"],
+                                "a sanitizer build with -funsigned-char (text-handling ops in quick, everything in thorough)",
+                                "an optimised build (-O3, no sanitizer) with every operand behind a pad of its own alignment: crashes, exceptions and invalid enumerators only"],
                        "simulated": ["allocator's decision to fail (replaced global operator new)", "stream sink (std::streambuf with byte budget, 3 failure modes, preset state bits/flags, null buffer)"],
                        "absent_no_seam": ["clock", "network", "disk", "threads"]},
-        "build_seconds": {"sanitizer": round(hs.build_s, 1), "plain": round(hp.build_s, 1)},
+        "build_seconds": {"sanitizer": round(hs.build_s, 1), "plain": round(hp.build_s, 1), "optimised": round(ho.build_s, 1)},
         "repo": common.repo_state(),
     }
     common.write_evidence(PROP, tier, seed, "fault_enumeration", cov, wall, nviol,
